@@ -582,6 +582,50 @@ def rule_sort4(prog):
                         'guarded CTL/LTL modelcheck' % (v,)), witness=v)
         if ncore == 0:
             raise AnalysisError('R-SORT-4: no returning path in %s' % f.qn)
+        # an argument that is not a formula of the logic is *cast*; an
+        # argument that cannot be cast at all (a number, None, a formula of
+        # the base language: no cast_to) must be rejected with TypeError
+        # too, i.e. the attempt sits in a handler that catches whatever the
+        # attempt raises (AttributeError included)
+        fparam = f.node.args.args[1].arg if len(f.node.args.args) > 1 \
+            else None
+        for t in ast.walk(f.node):
+            if not isinstance(t, ast.Try):
+                continue
+            casts = [c for b in t.body for c in ast.walk(b)
+                     if isinstance(c, ast.Call) and
+                     isinstance(c.func, ast.Attribute) and
+                     c.func.attr == 'cast_to' and
+                     isinstance(c.func.value, ast.Name) and
+                     c.func.value.id == fparam]
+            if not casts:
+                continue
+            caught = []
+            for h in t.handlers:
+                if h.type is None:
+                    caught.append('BaseException')
+                else:
+                    ts = h.type.elts if isinstance(h.type, ast.Tuple) \
+                        else [h.type]
+                    caught.extend(ast.unparse(x).split('.')[-1] for x in ts)
+            covers = any(c in ('BaseException', 'Exception',
+                               'AttributeError') for c in caught)
+            r.inst(lang=lang, cast_attempt_line=casts[0].lineno,
+                   handler_catches=caught, covers_uncastable=covers)
+            if covers:
+                r.ok()
+            else:
+                r.fail(Finding(
+                    PROP, 'R-SORT-4', '%s:%d' % (f.module.relpath,
+                                                 casts[0].lineno),
+                    f.short(), 'cast-handler:%s' % ','.join(caught),
+                    '%s.modelcheck tries `%s.cast_to(..)` under a handler '
+                    'that catches only %s: an argument without cast_to (a '
+                    'number, None, a formula of the base language) leaves '
+                    'modelcheck with AttributeError instead of TypeError' % (
+                        lang, fparam, caught),
+                    expected='TypeError for every argument that is not a '
+                             'formula of the logic'))
     floor('R-SORT-4', 'returning paths', len(r.instances), 6)
     return r
 
